@@ -350,4 +350,140 @@ def failures (q : SReq) (buf : List Nat) (exp : List Rec) (a : Artefact) : List 
   (if decide (DbsOk q a) then [] else [⟨"double-buffer", 0, 0, false⟩]) ++
   failuresPerRange q buf exp a
 
+/-! ### cache transparency
+
+`encode_weight_and_scale_tensor` answers from a process-wide memo table.  The table exists so that reuse is
+*invisible*: whatever a request is answered with must be what the same request returns when the table is
+bypassed.  An answer is a weights tensor and, for a "weights-only hit", a stand-alone scale tensor; a
+bypassing call always returns one tensor that holds both.  What the rest of the compiler can observe of an
+answer: the range table of the weights tensor (keys, offsets, section sizes: the address derivation and the
+DMA sizes read them), its double-buffer sizes and traversal flag, the bytes of every weight section, and the
+bytes of every scale section *of the tensor that carries the scales*. -/
+
+/-- an encoded tensor as its holder sees it -/
+structure ETensor where
+  buf : List Nat
+  ranges : List ARange
+  dbs0 : Nat
+  dbs1 : Nat
+  partKernel : Bool
+deriving Repr, DecidableEq
+
+def ARange.key (r : ARange) : Nat × Nat := (r.core, r.depth)
+
+def ETensor.weightSections (t : ETensor) : List ((Nat × Nat) × List Nat) :=
+  t.ranges.map fun r => (r.key, bytesAt t.buf (r.offset + r.weightOffset) r.weightBytes)
+
+def ETensor.scaleSections (t : ETensor) : List ((Nat × Nat) × List Nat) :=
+  t.ranges.map fun r => (r.key, bytesAt t.buf r.offset r.scaleBytes)
+
+/-- everything downstream code reads of an answer `(w, s)` -/
+structure Observation where
+  ranges : List ARange                           -- of the weights tensor
+  dbs : Nat × Nat
+  partKernel : Bool
+  weights : List ((Nat × Nat) × List Nat)
+  scales : List ((Nat × Nat) × List Nat)         -- of the tensor that carries the scales
+  scaleSizes : List Nat                          -- `scale_bytes` recorded on that tensor
+deriving Repr, DecidableEq
+
+def observe (w : ETensor) (s : Option ETensor) : Observation :=
+  let h := s.getD w
+  ⟨w.ranges, (w.dbs0, w.dbs1), w.partKernel, w.weightSections, h.scaleSections, h.ranges.map (·.scaleBytes)⟩
+
+/-- the answer `(w, s)` is indistinguishable from the bypassing answer `fresh` -/
+def CacheTransparent (w : ETensor) (s : Option ETensor) (fresh : ETensor) : Prop :=
+  observe w s = observe fresh none
+
+instance (w : ETensor) (s : Option ETensor) (f : ETensor) : Decidable (CacheTransparent w s f) := by
+  unfold CacheTransparent; infer_instance
+
+/-- which observable differs (executable verdict; empty = transparent) -/
+def transparencyFailures (w : ETensor) (s : Option ETensor) (fresh : ETensor) : List String :=
+  let a := observe w s
+  let b := observe fresh none
+  (if a.ranges = b.ranges then [] else ["ranges"]) ++
+  (if a.dbs = b.dbs then [] else ["double-buffer-sizes"]) ++
+  (if a.partKernel = b.partKernel then [] else ["traversal"]) ++
+  (if a.weights = b.weights then [] else ["weight-sections"]) ++
+  (if a.scales = b.scales then [] else ["scale-sections"]) ++
+  (if a.scaleSizes = b.scaleSizes then [] else ["scale-sizes"])
+
+/-! ### constants an *emitted* operation designates
+
+The registers of an NPU operation name, per active core, an address range for the scales and one for the
+weights (`SCALE`/`SCALE1`, `WEIGHT`/`WEIGHT1` base and length, one region register each).  Whatever the
+scheduler, the cache and the address derivation did on the way, the bytes these ranges designate — in the
+constants region of the output file, or in a buffer that an earlier DMA of the same stream filled from it —
+must be this operation's own: for core `k` one 10-byte record per channel of the stripe `[c0, c1)` with
+in-stripe index `≡ k`, carrying that channel's bias / multiplier / shift, and a weight stream that decodes to
+the operation's own filter for exactly those channels. -/
+
+structure Rng where
+  region : Nat
+  addr : Nat
+  len : Nat
+deriving Repr, DecidableEq
+
+/-- what a DMA left behind: `bytes = none` when its source could not be resolved to constants -/
+structure MemWrite where
+  region : Nat
+  addr : Nat
+  len : Nat
+  bytes : Option (List Nat)
+deriving Repr, DecidableEq
+
+structure ConstMem where
+  constRegion : Nat
+  image : Array Nat              -- the constants tensor of the output file
+  writes : List MemWrite         -- most recent first
+deriving Repr
+
+def ConstMem.read (m : ConstMem) (r : Rng) : Option (List Nat) :=
+  if r.region = m.constRegion then
+    if r.addr + r.len ≤ m.image.size then some (m.image.extract r.addr (r.addr + r.len)).toList else none
+  else
+    match m.writes.find? (fun w => w.region = r.region ∧ w.addr < r.addr + r.len ∧ r.addr < w.addr + w.len) with
+    | some w =>
+      if w.addr ≤ r.addr ∧ r.addr + r.len ≤ w.addr + w.len then w.bytes.map (fun b => bytesAt b (r.addr - w.addr) r.len)
+      else none
+    | none => none
+
+def ConstMem.dma (m : ConstMem) (src dst : Rng) : ConstMem :=
+  { m with writes := ⟨dst.region, dst.addr, dst.len, m.read src⟩ :: m.writes }
+
+structure OpConsts where
+  ncores : Nat
+  c0 : Nat
+  c1 : Nat
+  scales : List Rng
+  weights : List Rng
+deriving Repr, DecidableEq
+
+/-- cores that own at least one channel of the stripe -/
+def OpConsts.cores (o : OpConsts) : List Nat :=
+  (List.range o.ncores).filter fun k => (chanOf o.ncores k o.c0 (o.c1 - o.c0)).length ≠ 0
+
+/-- one scale range per owning core; it is 16-byte aligned, as long as the records rounded up to 16, and the
+    designated bytes start with exactly the records of the channels the core owns (`exp` is indexed by the
+    absolute channel number) -/
+def ScaleRegsOk (m : ConstMem) (exp : List Rec) (o : OpConsts) : Prop :=
+  o.scales.length = o.cores.length ∧
+  ∀ p ∈ o.cores.zip o.scales,
+    let chans := chanOf o.ncores p.1 o.c0 (o.c1 - o.c0)
+    p.2.addr % 16 = 0 ∧ p.2.len = roundUp16 (10 * chans.length) ∧
+    ((m.read ⟨p.2.region, p.2.addr, 10 * chans.length⟩).bind decodeRecords).map (fun l => l.map some)
+      = some (chans.map (exp[·]?))
+
+/-- one weight range per owning core; the designated bytes are `own[k]`, which the caller has shown to decode
+    to the operation's own weights of the core's channels -/
+def WeightRegsOk (m : ConstMem) (o : OpConsts) (own : List (List Nat)) : Prop :=
+  o.weights.length = o.cores.length ∧ own.length = o.cores.length ∧
+  ∀ p ∈ o.weights.zip own, p.1.addr % 16 = 0 ∧ p.1.len = p.2.length ∧ m.read p.1 = some p.2
+
+instance (m : ConstMem) (exp : List Rec) (o : OpConsts) : Decidable (ScaleRegsOk m exp o) := by
+  unfold ScaleRegsOk; infer_instance
+instance (m : ConstMem) (o : OpConsts) (own : List (List Nat)) : Decidable (WeightRegsOk m o own) := by
+  unfold WeightRegsOk; infer_instance
+
 end VelaVerif.WeightSpec
